@@ -819,8 +819,8 @@ func runC13(c *Ctx) {
 	c13SessionCases(c, c.Budget(200, 8000))
 	c13A2LNMCases(c, c.Budget(220, 10000))
 	c13NMCases(c, c.Budget(220, 8000))
-	c13LoaderCases(c, c.Budget(1400, 60000))
-	c13GetBaseCases(c, c.Budget(300, 10000))
+	c13LoaderCases(c, c.Budget(1100, 60000))
+	c13GetBaseCases(c, c.Budget(250, 10000))
 	c13PHMCases(c, c.Budget(300, 15000))
 	c13HFFOCases(c, c.Budget(200, 6000))
 	c13ObjAddrMisc(c, c.Budget(250, 10000))
